@@ -513,7 +513,7 @@ func c12Run(c *Ctx) {
 
 func init() {
 	addCheck(&Check{Flows: []flowOracle{flowExactlyOnce(false)}, ID: "C12", Level: "model_checking",
-		Rule:   "explicit-state BFS by replay (depth 6 with 2 client connections; thorough depth 7 with 3), all connections from 127.0.0.1 (or from the host of the first backend, announcing that backend's listening address) to one listener, two transactions per connection with pairwise distinct branches: events {connection k sends request t, backend answers (k,t) with 180, with 200, with a second 200} in every order, crossed with 56 flavours: received-support on/off x Via sent-by {same for all connections, different, host-table name, unknown name, equal to the true peer port, a name only the DNS knows} x rport requested or not x UDP or TCP backends, plus 16 flavours in which every branch is a proper prefix of the next (un-padded counters); plus, per UDP-backend flavour, a busy period: one transaction waits while another connection completes 1200 (thorough 6000) transactions, then its 180 and 200 arrive; plus a service with two listens entries whose next hop was learned through the other entry (tracked finding); plus answers that leave the backend host from another port and / or carry all Via values in one line; plus a table filling up with 1200 (6000) LIVE entries (unanswered requests) while a transaction waits; plus slow answers (clock steps of 2-1000 s between request, 180 and 200) under dialogTimeout none / 1 / 30 s for all 40 flavours; oracle: every provisional and the first final response is written on the connection that carried its request, on no other, and no connection is dialled; later finals are don't-cares; schedules: see the race tier; non-trivial = history longer than one event",
+		Rule:   "explicit-state BFS by replay (depth 6 with 2 client connections; thorough depth 7 with 3), all connections from 127.0.0.1 (or from the host of the first backend, announcing that backend's listening address) to one listener, two transactions per connection with pairwise distinct branches: events {connection k sends request t, backend answers (k,t) with 180, with 200, with a second 200} in every order, crossed with 56 flavours: received-support on/off x Via sent-by {same for all connections, different, host-table name, unknown name, equal to the true peer port, a name only the DNS knows} x rport requested or not (or pre-filled by the sender with a value: 24 more flavours) x UDP or TCP backends, plus 16 flavours in which every branch is a proper prefix of the next (un-padded counters); plus, per UDP-backend flavour, a busy period: one transaction waits while another connection completes 1200 (thorough 6000) transactions, then its 180 and 200 arrive; plus a service with two listens entries whose next hop was learned through the other entry (tracked finding); plus answers that leave the backend host from another port and / or carry all Via values in one line; plus a table filling up with 1200 (6000) LIVE entries (unanswered requests) while a transaction waits; plus slow answers (clock steps of 2-1000 s between request, 180 and 200) under dialogTimeout none / 1 / 30 s for all 40 flavours; oracle: every provisional and the first final response is written on the connection that carried its request, on no other, and no connection is dialled; later finals are don't-cares; schedules: see the race tier; non-trivial = history longer than one event",
 		Assume: []string{"connections are interchangeable: histories start with connection 0 (symmetry reduction)"},
 		Run:    c12Run,
 		Finalize: func(c *Ctx, m *Result) {
